@@ -267,8 +267,20 @@ class FortranAST:
                     if include_ast.inc_scope is None:
                         include_ast.inc_scope = include_ast.none_scope
                     # Files that (transitively) INCLUDE themselves: a scope cannot
-                    # be merged into itself (the loop below would never end)
-                    if include_ast.inc_scope is parent_scope:
+                    # be merged into itself (the loop below would never end) nor
+                    # into one of its own descendants (containment cycle)
+                    ancestor, seen = parent_scope, set()
+                    while ancestor is not None and id(ancestor) not in seen:
+                        if (
+                            ancestor is include_ast.inc_scope
+                            or ancestor in include_ast.inc_scope.children
+                        ):
+                            break
+                        seen.add(id(ancestor))
+                        ancestor = getattr(ancestor, "parent", None)
+                    else:
+                        ancestor = None
+                    if ancestor is not None:
                         continue
                     # Remove old objects
                     for obj in added_entities:
